@@ -67,3 +67,18 @@ def verdict(ok, *why):
 
 def P(name, default=None):
     return PARAMS.get(name, default)
+
+
+def select(sym, lo, hi):
+    """Explicit case split of a bounded symbolic selector into a concrete int (one solver-decided
+    branch per value; the declared range [lo, hi] must have been assumed in `pre:`)."""
+    for v in range(lo, hi + 1):
+        if sym == v:
+            return v
+    raise IgnoreAttempt("selector outside declared range")
+
+
+def native():
+    """Context manager: run a block natively (selector mode, all inputs already concrete)."""
+    from crosshair.tracers import NoTracing
+    return NoTracing()
